@@ -107,7 +107,12 @@ def find_operator_fn(prog):
     for c in cands:
         f0 = c[0]
         base = getattr(f0, "base", f0)
-        if any((not x.is_ptr) and _inline.is_accessor(prog.fns.get(x.res)) for x in f0.calls()):
+        def _takes_op(x):
+            g_ = prog.fns.get(x.res)
+            return g_ is not None and g_.full and not g_.is_closure and g_.path != base.path \
+                and g_.path in _inline.private_helpers(prog, base) \
+                and any(t.replace("&", "").strip() == BINOP for t in g_.locals[1:g_.arg_count + 1])
+        if any((not x.is_ptr) and (_inline.is_accessor(prog.fns.get(x.res)) or _takes_op(x)) for x in f0.calls()):
             v = _inline.view(prog, base, pick=_arm_helper, accessors=True)
             s = shape(v) if v is not base else None
             out_.append(s if s else c)
@@ -308,7 +313,7 @@ def forward_taint(f, call=None, seeds=()):
                 if dst in tainted:
                     continue
                 rv = s[2]
-                srcs = [p[0] for p in mir.rvalue_places(rv)] if rv[0] in ("use", "ref", "cfd", "cast") else []
+                srcs = [p[0] for p in mir.rvalue_places(rv)] if rv[0] in ("use", "ref", "cfd", "cast", "agg") else []
                 if any(x in tainted for x in srcs):
                     tainted.add(dst)
                     changed = True
